@@ -668,3 +668,56 @@ spec("C10", plan=plan_c10,
           "candidates whose first unit is a multi-unit lead / surrogate; distinct by construction (enumeration).",
      assumptions=COMMON_ASSUME + ["masks and set members are template parameters: a finite compile-time family is checked (listed in targets/c10_classes.cpp)",
                                   "char parameters of ascii::range are compared as the platform's (signed) char"])
+
+# ---------------------------------------------------------------------------- C14
+DATA_DIR = os.path.join(REPO, "src", "test", "pegtl", "data")
+
+
+def post_c14(results, workdir, notes):
+    """Second opinion on the oracle: Python's json (strict, constants rejected) on the sampled documents and mutants.
+    A disagreement between the two oracles makes the run inconclusive - it is never reported as a violation."""
+    import glob
+    import json as pyjson
+    n = 0
+    bad = 0
+    for f in glob.glob(os.path.join(workdir, "*.samples")):
+        for line in open(f):
+            parts = line.rstrip("\n").split(" ")
+            if len(parts) != 2:
+                continue
+            hx, verdict = parts
+            raw = bytes.fromhex(hx)
+            try:
+                txt = raw.decode("utf-8")
+                def nope(x):
+                    raise ValueError("constant")
+                pyjson.loads(txt, parse_constant=nope)
+                py = 1
+            except RecursionError:
+                continue
+            except Exception:
+                py = 0
+            n += 1
+            if py != int(verdict):
+                bad += 1
+                if bad <= 3:
+                    notes.append("ORACLE-DISAGREEMENT json_ref=%s python=%d on %r" % (verdict, py, raw[:80]))
+    notes.append("oracle cross-check: %d sampled documents/mutants judged identically by oracles/json_ref.hpp and Python json: %s" % (n, "yes" if bad == 0 else "NO (%d differ)" % bad))
+    return bad
+
+
+def plan_c14(tier, seed, workdir, case):
+    t = Target("c14_json", "targets/c14_json.cpp", mode="rc", extra=("-O2",))
+    return [Run(t, args=["--data", DATA_DIR], nshards=1 if case else 16, timeout=3000)]
+
+
+spec("C14", plan=plan_c14, post=post_c14,
+     rule="differential against an independent strict RFC 8259 recogniser (oracles/json_ref.hpp, ABNF + table-driven UTF-8 validator): "
+          "the repository's pass/fail/blns data files; ALL strings up to length 5 (thorough 6) over a 29-symbol JSON alphabet (structural "
+          "characters, quote, backslash, digits, sign, '.', e/E, letters of the literals, space, LF, 0x1f, 0x7f, a stray continuation byte, "
+          "one 2-byte character); rapidcheck-generated documents (depth <= 5, numbers of all forms, strings with every escape, surrogate "
+          "escapes, 1-4 byte characters, whitespace everywhere), every truncation of each and 12 single-edit mutants of each (delete / "
+          "insert / replace / swap with JSON-significant and UTF-8-significant bytes); nesting 1..300.  Any exception is a violation.  "
+          "Non-trivial: strings the oracle accepts and single-edit mutants of accepted documents; distinct by hash of the text.  The "
+          "oracle itself is cross-checked against Python's json on the sampled documents every run.",
+     assumptions=COMMON_ASSUME + ["oracles/json_ref.hpp transcribes RFC 8259; cross-checked every run against Python's json module on up to 64000 sampled strings"])
